@@ -55,12 +55,12 @@ def used_bits(c, maskname):
 def _passed_as_argument(c, name):
     for f in c.fields:
         for t, _, _ in walk_types(f.typ):
-            if t.kind == "ref" and any(a.kind == "field" and a.val == name for a in t.args):
+            if t.kind == "ref" and any(a.kind in ("field", "param") and a.val == name for a in t.args):
                 return True
     res = getattr(c, "result", None)
     if res is not None:
         for t, _, _ in walk_types(res):
-            if t.kind == "ref" and any(a.kind == "field" and a.val == name for a in t.args):
+            if t.kind == "ref" and any(a.kind in ("field", "param") and a.val == name for a in t.args):
                 return True
     return False
 
@@ -196,7 +196,7 @@ def _referenced(c, name):
         for t, _, _ in walk_types(f.typ):
             if t.kind == "tuple" and t.size.kind == "field" and t.size.val == name:
                 return True
-            if t.kind == "ref" and any(a.kind == "field" and a.val == name for a in t.args):
+            if t.kind == "ref" and any(a.kind in ("field", "param") and a.val == name for a in t.args):
                 return True
     return False
 
@@ -251,6 +251,179 @@ def e_change_mask_ref(s, r):
     f, others, kind = r.pick(cands)
     f.mask = (NatExpr("field", r.pick(others).name), f.mask[1])
     return ("change-mask-reference", kind)
+
+
+def _nat_sources(d, c, upto):
+    """names a mask / size reference may point to at field index upto: earlier unmasked '#' fields and '#' template arguments"""
+    out = [("field", g.name) for g in c.fields[:upto] if g.typ.kind == "nat" and g.arr is None and not g.mask]
+    if d is not None:
+        out += [("param", p) for p, _ in d.params]
+    return out
+
+
+def e_repoint_mask_ref(s, r):
+    """the mask reference of an existing field moves between a template argument and a field (or between two template arguments)"""
+    cands = []
+    for d, c, k in combinators(s):
+        for i, f in enumerate(c.fields):
+            if f.mask:
+                others = [x for x in _nat_sources(d, c, i) if x != (f.mask[0].kind, f.mask[0].val)]
+                if any(x[0] == "param" for x in others) or f.mask[0].kind == "param":
+                    if others:
+                        cands.append((f, others, k))
+    if not cands:
+        return None
+    f, others, kind = r.pick(cands)
+    was = f.mask[0].kind
+    nk, nv = r.pick(others)
+    f.mask = (NatExpr(nk, nv), f.mask[1])
+    return ("change-mask-reference", "%s->%s/%s" % (was, nk, kind))
+
+
+def e_repoint_size_ref(s, r):
+    """the size parameter of an existing array field (n*[T] or tuple T n) moves to another '#' source"""
+    cands = []
+    for d, c, k in combinators(s):
+        for i, f in enumerate(c.fields):
+            sz = f.arr if f.arr is not None else (f.typ.size if f.typ.kind == "tuple" else None)
+            if sz is None or sz.kind == "const":
+                continue
+            others = [x for x in _nat_sources(d, c, i) if x != (sz.kind, sz.val)]
+            if others:
+                cands.append((f, sz, others, k))
+    if not cands:
+        return None
+    f, sz, others, kind = r.pick(cands)
+    was = sz.kind
+    nk, nv = r.pick(others)
+    if f.arr is not None:
+        f.arr = NatExpr(nk, nv)
+        return ("change-size-reference", "brackets/%s->%s/%s" % (was, nk, kind))
+    f.typ.size = NatExpr(nk, nv)
+    return ("change-size-reference", "tuple-argument/%s->%s/%s" % (was, nk, kind))
+
+
+def e_append_two_fields_same_bit(s, r):
+    """two appended fields guarded by the same, so far unused, bit of an existing local mask that already has a used bit"""
+    cands = [(d, c, k, m) for d, c, k in combinators(s) for m in mask_fields(c) if used_bits(c, m.name)]
+    if not cands:
+        return None
+    d, c, kind, m = r.pick(cands)
+    free = [b for b in range(32) if b not in used_bits(c, m.name)]
+    bit = r.pick(free[:6] + free[-2:])
+    n = r.below(1000)
+    c.fields.append(Field("zz_p%d" % n, T("prim", name="int", spelling="int"), (NatExpr("field", m.name), bit)))
+    c.fields.append(Field("zz_q%d" % n, T("prim", name="string", spelling="string"), (NatExpr("field", m.name), bit)))
+    return ("append-two-fields-under-one-unused-bit", kind)
+
+
+def _param_mask_free_bits(s, d, pname, want_const_bit=False):
+    """bits of template mask parameter pname that nothing in the schema can have given a meaning: only when the parameter is used as a
+    mask by the type's own fields and never forwarded, and every use of the type passes a constant or a '#' that nothing else uses"""
+    for c in d.constructors:
+        if _passed_as_argument(c, pname) or any((f.arr is not None and f.arr.val == pname) or (f.typ.kind == "tuple" and f.typ.size.val == pname) for f in c.fields):
+            return None
+    used = set()
+    for c in d.constructors:
+        used |= {f.mask[1] for f in c.fields if f.mask and f.mask[0].kind == "param" and f.mask[0].val == pname}
+    idx = [p for p, _ in d.params].index(pname)
+    consts = []
+    for dd, c, _ in combinators(s):
+        holders = list(c.fields) + ([Field("<result>", c.result)] if hasattr(c, "result") else [])
+        for f in holders:
+            for t, _, _ in walk_types(f.typ):
+                if t.kind == "ref" and t.decl is d:
+                    a = t.args[idx]
+                    if a.kind == "const":
+                        consts.append(a.val)
+                        continue
+                    if a.kind != "field":
+                        return None
+                    # the '#' field that feeds the mask must feed nothing else and guard nothing itself
+                    src = [g for g in c.fields if g.name == a.val]
+                    if not src or used_bits(c, a.val):
+                        return None
+                    n_uses = sum(1 for g in holders for tt, _, _ in walk_types(g.typ) if tt.kind == "ref" and any(x.kind == "field" and x.val == a.val for x in tt.args))
+                    if n_uses != 1 or any((g.arr is not None and g.arr.val == a.val) or (g.typ.kind == "tuple" and g.typ.size.val == a.val) for g in c.fields):
+                        return None
+    for dd in s.decls:
+        if dd.kind == "typedef":
+            for t, _, _ in walk_types(dd.inner):
+                if t.kind == "ref" and t.decl is d:
+                    return None
+    if want_const_bit:
+        return [b for b in range(32) if b not in used and any((cv >> b) & 1 for cv in consts)]
+    return [b for b in range(32) if b not in used and not any((cv >> b) & 1 for cv in consts)]
+
+
+def e_append_field_every_union_constructor(s, r, const_bit=False):
+    """the same masked field appended to every constructor of a union whose mask is a template argument"""
+    cands = []
+    for d in s.decls:
+        if d.kind == "union" and d.params:
+            for pname, role in d.params:
+                if role == "mask":
+                    free = _param_mask_free_bits(s, d, pname, const_bit)
+                    if free:
+                        cands.append((d, pname, free))
+    if not cands:
+        return None
+    d, pname, free = r.pick(cands)
+    bit = r.pick(free[:6] + free[-2:])
+    n = r.below(1000)
+    for c in d.constructors:
+        c.fields.append(Field("zz_u%d" % n, T("prim", name="int", spelling="int"), (NatExpr("param", pname), bit)))
+    if const_bit:
+        return ("append-field-under-template-mask-bit-that-a-constant-argument-sets", "constructor")
+    return ("append-field-to-every-constructor-under-template-mask", "constructor")
+
+
+def e_insert_function(s, r):
+    """a new function with a field mask first, placed before or between the old functions"""
+    f = Field("fields_mask", T("nat"))
+    f.role = "mask"
+    fields = [f] + ([Field("x", T("prim", name="int", spelling="int"))] if r.chance(1, 2) else [])
+    fn = Function("vz.zzIns%d" % r.below(1000), (r.next() & 0xffffffff) | 1, "read", fields, T("boxedprim", name="Int"))
+    s.functions.insert(r.below(len(s.functions)) if s.functions else 0, fn)
+    return ("insert-function-with-mask-first-before-old-functions", "function")
+
+
+def recursion_family(r):
+    """mutually recursive types that forward one external field mask to each other; returns (old schema, new schema, kind):
+    the new schema appends a field under a bit that the *other* type of the cycle already gives a meaning to"""
+    from .schemagen import Schema
+    s = Schema()
+    bits = list(range(32))
+    r.shuffle(bits)
+    xb, yb, zb = bits[0], bits[1], bits[2]
+    names = ["alpha", "beta", "gamma"]
+    r.shuffle(names)
+    i32 = lambda: T("prim", name="int", spelling="int")
+
+    def tmpl(base, p):
+        d = Decl("struct", "vz", base, [(p, "mask")])
+        d.constructors.append(Constructor(d.lname, (r.next() & 0xffffffff) | 1, True, []))
+        return d
+    b = tmpl(names[0], "k")
+    a = tmpl(names[1], "m")
+    vec = lambda d, p: T("vector", elem=T("ref", decl=d, bare=False, pct=False, args=[NatExpr("param", p)]), form="boxed")
+    extra_b = [Field("pad", i32())] if r.chance(1, 2) else []
+    b.constructors[0].fields = extra_b + [Field("as", vec(a, "k")), Field("y", i32(), (NatExpr("param", "k"), yb))]
+    a.constructors[0].fields = [Field("x", i32(), (NatExpr("param", "m"), xb)), Field("bs", vec(b, "m")), Field("z", i32(), (NatExpr("param", "m"), zb))]
+    top = Decl("struct", "vz", names[2], [])
+    n = Field("n", T("nat"))
+    n.role = "mask"
+    top.constructors.append(Constructor(top.lname, (r.next() & 0xffffffff) | 1, True, [n, Field("v", T("ref", decl=a, bare=False, pct=False, args=[NatExpr("field", "n")]))]))
+    s.decls = [b, a, top] if r.chance(2, 3) else [a, b, top]
+    import copy as _copy
+    s2 = _copy.deepcopy(s)
+    a2 = [d for d in s2.decls if d.base == names[1]][0]
+    b2 = [d for d in s2.decls if d.base == names[0]][0]
+    if r.chance(2, 3):
+        a2.constructors[0].fields.append(Field("w", i32(), (NatExpr("param", "m"), yb)))
+    else:
+        b2.constructors[0].fields.append(Field("w", i32(), (NatExpr("param", "k"), r.pick([xb, zb]))))
+    return s, s2, ("append-field-under-bit-used-by-the-other-type-of-a-cycle", "mutually-recursive-templates")
 
 
 def e_add_mask(s, r):
@@ -321,10 +494,12 @@ def e_neutral(s, r):
     return ("rename-field", "field")
 
 
-SAFE = [lambda s, r: e_append_masked_field(s, r), e_append_constructor, e_add_type, lambda s, r: e_add_function(s, r, True), lambda s, r: e_struct_to_union(s, r, False)]
+SAFE = [lambda s, r: e_append_masked_field(s, r), e_append_constructor, e_add_type, lambda s, r: e_add_function(s, r, True), lambda s, r: e_struct_to_union(s, r, False),
+        e_append_two_fields_same_bit, e_append_field_every_union_constructor, e_insert_function]
 UNSAFE = [e_remove_constructor, e_remove_function, lambda s, r: e_remove_field(s, r, True), lambda s, r: e_remove_field(s, r, False), e_change_prim, e_change_prim, e_change_prim,
           e_change_mask_bit, e_change_mask_ref, e_add_mask, e_remove_mask, e_append_unmasked_field, lambda s, r: e_append_masked_field(s, r, True),
-          lambda s, r: e_struct_to_union(s, r, True), e_remove_template_arg]
+          lambda s, r: e_struct_to_union(s, r, True), e_remove_template_arg, e_repoint_mask_ref, e_repoint_size_ref,
+          lambda s, r: e_append_field_every_union_constructor(s, r, True)]
 
 
 def run_linter(ctx, pairs):
